@@ -1,16 +1,67 @@
 //go:build verif
 
 // Machine-checked contracts for package plonk (comment-only, build tag `verif`).
+// The PLONK check at zeta (plonky2 plonk/verifier.rs + vanishing_poly.rs::eval_vanishing_poly).
 package plonk
 
-//@ func NewPlonkChip(api frontend.API, commonData types.CommonCircuitData) (res *PlonkChip)
-//@   props C17
-//@   circuit
-//@   flag trusted
-//@   ensures true
+//@ def plonk_ok(p) = cd_small(p.commonData) && p.commonData.Config.NumChallenges <= pow2(16) && 1 <= p.commonData.QuotientDegreeFactor &&
+//@     p.DEGREE.Limb == pow2(p.commonData.DegreeBits) && p.DEGREE_QE == tuple(pow2(p.commonData.DegreeBits), 0) &&
+//@     len(p.commonDataKIs) == p.commonData.Config.NumRoutedWires && canonSeq(p.commonDataKIs) &&
+//@     p.evaluateGatesChip.numGateConstraints == p.commonData.NumGateConstraints && p.commonData.NumGateConstraints <= pow2(32)
 
-//@ func (p *PlonkChip) Verify(proofChallenges variables.ProofChallenges, openings variables.OpeningSet, publicInputsHash poseidon.GoldilocksHashOut)
-//@   props C17
+//@ func NewPlonkChip(api frontend.API, commonData types.CommonCircuitData) (res *PlonkChip)
+//@   props C16 C17
+//@   circuit sound-only
+//@   requires cd_small(commonData) && commonData.Config.NumChallenges <= pow2(16) && 1 <= commonData.QuotientDegreeFactor && commonData.NumGateConstraints <= pow2(32)
+//@   requires len(commonData.KIs) == commonData.Config.NumRoutedWires && forall(k, 0, len(commonData.KIs), commonData.KIs[k] < P)
+//@   ensures plonk_ok(res)
+//@   loop 0 invariant -1 <= rangeindex && rangeindex < len(commonData.GateIds)
+
+// zeta^(2^degree_bits) by repeated squaring
+//@ def qe_sqo(y) = qe_mulo(y, y)
+//@ recdef qe_sq_iter(x QE, k int) QE = ite(k <= 0, x, qe_sqo(qe_sq_iter(x, k - 1)))
+
+//@ func (p *PlonkChip) expPowerOf2Extension(x gl.QuadraticExtensionVariable) (res gl.QuadraticExtensionVariable)
+//@   props C16 C05
 //@   circuit
-//@   flag trusted
-//@   ensures true
+//@   requires canonQE(x) && p.commonData.DegreeBits <= 32
+//@   ensures canonQE(res) && res == qe_sq_iter(x, p.commonData.DegreeBits)
+//@   loop 0 invariant 0 <= i && i <= p.commonData.DegreeBits && i <= 32 && canonQE(x) && x == qe_sq_iter(old(x), i)
+
+// L_0(x) = (x^n - 1) / (n (x - 1)), stated as the defining product (the divisor is non-zero or the circuit is unsatisfiable)
+//@ def l0_den(x, n) = qe_sub(qe_smul(x, n), tuple(n, 0))
+//@ func (p *PlonkChip) evalL0(x gl.QuadraticExtensionVariable, xPowN gl.QuadraticExtensionVariable) (res gl.QuadraticExtensionVariable)
+//@   props C16 C05
+//@   circuit
+//@   requires plonk_ok(p) && canonQE(x) && canonQE(xPowN)
+//@   honest !(l0_den(x, pow2(p.commonData.DegreeBits))[0] == 0 && l0_den(x, pow2(p.commonData.DegreeBits))[1] == 0)
+//@   ensures canonQE(res)
+//@   ensures !(l0_den(x, pow2(p.commonData.DegreeBits))[0] == 0 && l0_den(x, pow2(p.commonData.DegreeBits))[1] == 0)
+//@   ensures qe_mul(l0_den(x, pow2(p.commonData.DegreeBits)), res) == qe_sub(xPowN, tuple(1, 0))
+
+// Chunked permutation check (plonky2 check_partial_products): accumulators [Z(zeta), partial products.., Z(g zeta)];
+// for every chunk i of at most `quotient_degree_factor` wires:  acc[i] * prod(numerators of chunk) - acc[i+1] * prod(denominators of chunk).
+// plonky2 chooses num_partial_products = ceil(num_routed_wires / quotient_degree_factor) - 1, the last chunk may be shorter.
+//@ recdef qe_chunk_prod(t []QE, start int, k int) QE = ite(k <= 1, t[start], qe_mulo(qe_chunk_prod(t, start, k - 1), t[start + k - 1]))
+//@ def pp_relation(cd) = 1 <= cd.QuotientDegreeFactor && 1 <= cd.Config.NumRoutedWires && cd.NumPartialProducts * cd.QuotientDegreeFactor < cd.Config.NumRoutedWires && cd.Config.NumRoutedWires <= (cd.NumPartialProducts + 1) * cd.QuotientDegreeFactor
+//@ def pp_chunk_len(cd, i) = ite((i + 1) * cd.QuotientDegreeFactor <= cd.Config.NumRoutedWires, cd.QuotientDegreeFactor, cd.Config.NumRoutedWires - i * cd.QuotientDegreeFactor)
+//@ def pp_acc(o, c, npp, i) = ite(i == 0, o.PlonkZs[c], ite(i == npp + 1, o.PlonkZsNext[c], o.PartialProducts[c * npp + ite(i == 0, 0, i - 1)]))
+
+//@ func (p *PlonkChip) checkPartialProducts(numerators []gl.QuadraticExtensionVariable, denominators []gl.QuadraticExtensionVariable, challengeNum uint64, openings variables.OpeningSet) (res []gl.QuadraticExtensionVariable)
+//@   props C16 C05 C20 C02
+//@   circuit
+//@   requires cd_small(p.commonData) && pp_relation(p.commonData) && challengeNum <= pow2(16)
+//@   requires canonQEs(numerators) && canonQEs(denominators) && canonQEs(openings.PlonkZs) && canonQEs(openings.PlonkZsNext) && canonQEs(openings.PartialProducts)
+//@   complete_requires len(numerators) == p.commonData.Config.NumRoutedWires && len(denominators) == p.commonData.Config.NumRoutedWires
+//@   complete_requires challengeNum < len(openings.PlonkZs) && challengeNum < len(openings.PlonkZsNext) && (challengeNum + 1) * p.commonData.NumPartialProducts <= len(openings.PartialProducts)
+//@   ensures len(res) == p.commonData.NumPartialProducts + 1 && canonQEs(res)
+//@   ensures forall(i, 0, p.commonData.NumPartialProducts + 1, res[i] == qe_sub(
+//@        qe_mul(pp_acc(openings, challengeNum, p.commonData.NumPartialProducts, i), qe_chunk_prod(numerators, i * p.commonData.QuotientDegreeFactor, pp_chunk_len(p.commonData, i))),
+//@        qe_mul(pp_acc(openings, challengeNum, p.commonData.NumPartialProducts, i + 1), qe_chunk_prod(denominators, i * p.commonData.QuotientDegreeFactor, pp_chunk_len(p.commonData, i)))))
+//@   loop 0 invariant 0 <= i && i <= numPartProds + 1 && i <= pow2(33) && len(productAccs) == numPartProds + 2 && canonQEs(productAccs) && len(partialProductChecks) == i && canonQEs(partialProductChecks) &&
+//@        forall(k, 0, numPartProds + 2, productAccs[k] == pp_acc(openings, challengeNum, numPartProds, k)) &&
+//@        forall(k, 0, i, partialProductChecks[k] == qe_sub(
+//@          qe_mul(pp_acc(openings, challengeNum, numPartProds, k), qe_chunk_prod(numerators, k * quotDegreeFactor, pp_chunk_len(p.commonData, k))),
+//@          qe_mul(pp_acc(openings, challengeNum, numPartProds, k + 1), qe_chunk_prod(denominators, k * quotDegreeFactor, pp_chunk_len(p.commonData, k)))))
+//@   loop 1 invariant 1 <= j && j <= quotDegreeFactor && j <= pow2(33) && canonQE(numeProduct) && canonQE(denoProduct) &&
+//@        numeProduct == qe_chunk_prod(numerators, ppStartIdx, j) && denoProduct == qe_chunk_prod(denominators, ppStartIdx, j)
